@@ -1,12 +1,104 @@
 /-
-  Props.C07 — the theorems that decide property C07 (see DESIGN.md §7).
+  Props.C07 — truthiness, logical operators and comparators follow the
+  specification (DESIGN.md §7, C07).  All statements are about
+  `Interp.eval`, the model of `treeInterpreter.Execute`, for every AST, every
+  document and every function table.
 -/
 import Props.Tables
+import Proofs.Value
+import Jmes.Interp
 namespace Jmes.Props
-open Jmes
+open Jmes Jmes.Interp
 
 theorem C07_generated_table_ok : TableOK Generated.table = true := generated_table_ok
 theorem C07_generated_sigs_ok : SigsOK Generated.functionTable Spec.functionTable = true := generated_sigs_ok
 theorem C07_generated_lex_ok : LexTablesOK Model.lexTables Spec.lexTables = true := generated_lex_ok
+
+variable {N : Type} [NumOps N]
+
+/-- The JMESPath truth definition: exactly false, null, the empty string, the
+    empty array and the empty object are false-like — in particular every
+    number, 0 included, is true-like. -/
+theorem C07_false_like_values (v : Val N) :
+    v.isFalse = true ↔ (v = .null ∨ v = .bool false ∨ v = .str [] ∨ v = .arr [] ∨ v = .obj []) := by
+  cases v with
+  | null => simp [Val.isFalse]
+  | bool b => cases b <;> simp [Val.isFalse]
+  | num n => simp [Val.isFalse]
+  | str s => cases s <;> simp [Val.isFalse]
+  | arr xs => cases xs <;> simp [Val.isFalse]
+  | obj kvs => cases kvs <;> simp [Val.isFalse]
+
+theorem C07_numbers_are_true_like (n : N) : (Val.num n).isFalse = false := rfl
+
+/-- `a || b`: the value of `a` when it is true-like — whatever `b` is, even an
+    expression that would fail: `b` is not evaluated — and otherwise the
+    outcome of `b`.  The result is an operand value, not a boolean. -/
+theorem C07_or (ft : List FnEntry) (a b : Node N) (d va : Val N) (ha : eval ft a d = .ok va) :
+    eval ft (.or a b) d = if va.isFalse then eval ft b d else .ok va := by
+  simp only [eval, ha]
+
+/-- `a && b`: the value of `a` when it is false-like (`b` not evaluated), otherwise the outcome of `b`. -/
+theorem C07_and (ft : List FnEntry) (a b : Node N) (d va : Val N) (ha : eval ft a d = .ok va) :
+    eval ft (.and a b) d = if va.isFalse then .ok va else eval ft b d := by
+  simp only [eval, ha]
+
+/-- `!a` is a boolean: true exactly when `a` is false-like. -/
+theorem C07_not (ft : List FnEntry) (a : Node N) (d va : Val N) (ha : eval ft a d = .ok va) :
+    eval ft (.not a) d = .ok (.bool va.isFalse) := by
+  simp only [eval, ha]
+
+/-- Comparators evaluate both operands and compareVals their values. -/
+theorem C07_comparator (ft : List FnEntry) (op : Cmp) (a b : Node N) (d va vb : Val N)
+    (ha : eval ft a d = .ok va) (hb : eval ft b d = .ok vb) :
+    eval ft (.cmp op a b) d = .ok (compareVals op va vb) := by
+  simp only [eval, ha, hb]
+
+/-- `==` and `!=` are deep JSON equality over all types: `a == b` is the boolean
+    that is true exactly when the two values are equal, `a != b` its negation. -/
+theorem C07_eq_is_deep_equality [NumLaws N] (va vb : Val N) :
+    ∃ r : Bool, compareVals .eq va vb = .bool r ∧ compareVals .ne va vb = .bool (!r) ∧ (r = true ↔ va = vb) :=
+  ⟨va.deepEq vb, rfl, rfl, Val.deepEq_iff va vb⟩
+
+/-- … hence never equal across types (e.g. the number 1 and the string "1"). -/
+theorem C07_never_equal_across_types [NumLaws N] (n : N) (s : Bytes) (b : Bool) (xs : List (Val N)) (kvs : List (Bytes × Val N)) :
+    compareVals .eq (.num n) (.str s) = .bool false ∧ compareVals .eq (.num n) (.bool b) = .bool false
+    ∧ compareVals .eq (.null : Val N) (.bool false) = .bool false ∧ compareVals .eq (.str s) (.arr xs) = .bool false
+    ∧ compareVals .eq (.arr xs) (.obj kvs) = .bool false ∧ compareVals .eq (.null : Val N) (.str []) = .bool false := by
+  simp [compareVals, Val.deepEq]
+
+/-- `<`, `<=`, `>`, `>=` compareVals two numbers numerically … -/
+theorem C07_ordering_on_numbers (x y : N) :
+    compareVals .lt (.num x) (.num y) = .bool (NumOps.lt x y) ∧ compareVals .lte (.num x) (.num y) = .bool (NumOps.le x y)
+    ∧ compareVals .gt (.num x) (.num y) = .bool (NumOps.lt y x) ∧ compareVals .gte (.num x) (.num y) = .bool (NumOps.le y x) := by
+  simp [compareVals]
+
+/-- … and yield null when either operand is not a number. -/
+theorem C07_ordering_on_non_numbers (op : Cmp) (hop : op ≠ .eq ∧ op ≠ .ne) (va vb : Val N)
+    (h : (∀ x, va ≠ .num x) ∨ (∀ y, vb ≠ .num y)) : compareVals op va vb = .null := by
+  cases op <;> simp at hop <;>
+  (cases va <;> cases vb <;> simp [compareVals] <;>
+    (rcases h with h | h <;> exact absurd rfl (h _)))
+
+/-- With integers for numbers the order is the usual one (the laws are not vacuous). -/
+example : compareVals .lt (.num (2 : Int)) (.num 10) = .bool true := by rfl
+example : compareVals .eq (.num (1 : Int)) (.str [0x31]) = .bool false := by rfl
+example : compareVals .eq (.obj [([0x78], (.null : Val Int))]) (.obj [([0x79], .null)]) = .bool false := by rfl
+
+omit [NumOps N] in
+/-- A filter keeps exactly the elements whose condition is true-like (then
+    applies the right-hand side and drops nulls), in order. -/
+theorem C07_filter_keeps_true_like (cond rhs : Val N → Res (Val N)) (cf rf : Val N → Val N) (xs : List (Val N))
+    (hc : ∀ x ∈ xs, cond x = .ok (cf x)) (hr : ∀ x ∈ xs, rhs x = .ok (rf x)) :
+    filterLoop cond rhs xs = .ok (dropNulls ((xs.filter (fun x => !(cf x).isFalse)).map rf)) := by
+  induction xs with
+  | nil => rfl
+  | cons x xs ih =>
+    have ih' := ih (fun y hy => hc y (by simp [hy])) (fun y hy => hr y (by simp [hy]))
+    simp only [filterLoop, hc x (by simp), hr x (by simp), ih']
+    by_cases hf : (cf x).isFalse
+    · simp [hf]
+    · simp only [hf, Bool.not_false, if_true, List.filter_cons, List.map_cons]
+      cases hrx : rf x <;> simp [dropNulls]
 
 end Jmes.Props
